@@ -14,7 +14,16 @@ Clauses (numbers as in DESIGN.md section 3, C07):
   bookkeeping       6  aligned_source() == apply(source), alignment_error() == |target - aligned|_F,
                        target / source are what was passed in, inputs unchanged - every alignment class
   gpa               7  GeneralizedProcrustesAnalysis transforms: bookkeeping, and with target=None equal to a
-                       fresh AlignmentSimilarity onto gpa.target and to the reference similarity
+                       fresh AlignmentSimilarity onto gpa.target and to the reference similarity;
+                       mean_alignment_error() is the mean of the transforms' Frobenius errors
+  retarget          8  clauses 1-4 and 6 on a RE-USED object: after copy(), pseudoinverse() (an alignment from the old
+                       target onto the old source), compose_*_inplace, an in-place edit of the held target, and
+                       set_target (same object / equal copy / new / exact family image) the alignment is the class's
+                       fit of its CURRENT source onto its CURRENT target
+Input families added in the strengthening round: int64 sources / targets for every class (rounded coordinates), explicit
+source triangulations that are NOT the Delaunay one (flipped diagonals, a removed triangle), TriMesh targets carrying a
+triangulation of their own, exact affine targets probed OFF the landmarks (TPS / PWA recover their own family), the public
+fit kernels optimal_rotation_matrix / procrustes_alignment called directly with their documented defaults.
 All references live in vlib/refs_align.py (numpy only, no SVD-Kabsch on the reference side).
 """
 import math
@@ -30,6 +39,8 @@ from vlib.tol import close, describe, maxdiff
 import menpo.transform as mt
 from menpo.transform import rbf as mrbf
 from menpo.transform import GeneralizedProcrustesAnalysis
+from menpo.transform.homogeneous.rotation import optimal_rotation_matrix
+from menpo.transform.homogeneous.similarity import procrustes_alignment
 from menpo.transform.piecewiseaffine.base import CachedPWA, PythonPWA, TriangleContainmentError
 from menpo.shape import PointCloud, TriMesh
 
@@ -43,7 +54,11 @@ RULE = (
     "the member differs from the identity by > 1 % in some matrix entry; optimality / scale / similarity - the "
     "target is not reproduced exactly by the fit's family (reference residual > 0); interpolation / PWA - target "
     "differs from source (and for TPS the bordered system's smallest singular value is >= 100 x the truncation "
-    "floor); bookkeeping / GPA - the alignment error is non-zero. Distinct = distinct canonical-JSON digest."
+    "floor); bookkeeping / GPA - the alignment error is non-zero; retarget - the map after the drawn sequence of "
+    "copy / pseudoinverse / in-place composition / target edit / set_target steps differs from the map after "
+    "construction. About a third of the sources and of the targets are handed over as int64 arrays (source mapped onto "
+    "~64 integer units, target rounded; kept float when rounding would make the set degenerate). "
+    "Distinct = distinct canonical-JSON digest."
 )
 ASSUMPTIONS = [
     "the family of AlignmentUniformScale / AlignmentRotation is the class's own: scale / rotate about the ORIGIN "
@@ -56,7 +71,17 @@ ASSUMPTIONS = [
     "value >= 100 x min_singular_val (no truncation possible); below that only a loose 1e-4 x scale bound is asserted",
     "PWA: points are generated strictly inside a source triangle (barycentric margin 0.05), exactly on a shared "
     "edge (a TriangleContainmentError for such a point is counted as a rounding gap, not a failure) and 1e-6 "
-    "either side of it; explicit source triangulations are valid (Qhull Delaunay with permuted vertex roles)",
+    "either side of it; explicit source triangulations are valid: Qhull's Delaunay triangles with drawn diagonals of "
+    "convex quads flipped (each new triangle >= 10 % of the quad), optionally one triangle removed (every landmark "
+    "stays a vertex), vertex roles permuted; the reference always works from the trilist that was handed over",
+    "pseudoinverse() of a homogeneous alignment is taken as documented ('the transform that results from swapping "
+    "source and target'): for translation / scale / rotation / similarity the inverse of the fit IS the class's fit of "
+    "the swapped pair and is checked as such; for AlignmentAffine only when the forward fit is exact (the inverse of a "
+    "noisy least-squares fit is not the least-squares fit of the swapped pair) - after set_target it always is",
+    "what compose_*_inplace does to the held target is not asserted (AlignmentAffine re-derives it, the others keep "
+    "it); only that aligned_source / alignment_error stay consistent and that a later set_target re-fits",
+    "an affine target is reproduced OFF the landmarks at 1e-9 x scale by TPS only when no truncation is possible "
+    "(same smin >= 100 x floor precondition), by PWA at the triangle-quality tolerance",
     "tolerances: 1e-9 x coordinate scale for direct formulas, x design-matrix condition^2 for the affine normal "
     "equations, / uniqueness margin for rotations, / triangle quality for PWA",
     "conditioning by construction: coordinates |x| <= ~150, family scales in [0.25, 4], linear parts of condition <= 16",
@@ -183,7 +208,10 @@ def s_noise(n, d):
 
 
 @st.composite
-def s_homog_fit(draw, classes, family="mixed", levels=None, dims=(2, 3), competitors=0, n_params=None, planar=False):
+def s_homog_fit(draw, classes, family="mixed", levels=None, dims=(2, 3), competitors=0, n_params=None, planar=False,
+                ints="both"):
+    """ints: 'both' - source and / or target may be handed over as int64 point sets (rounded coordinates);
+    'src' - only the source (the target stays the exact float image of the rounded source); None - floats only."""
     spec = draw(s_spec(classes))
     d = draw(st.sampled_from(list(dims)))
     flat = planar and d == 3 and spec["cls"] != "AlignmentAffine" and draw(st.integers(0, 3)) == 0
@@ -197,6 +225,9 @@ def s_homog_fit(draw, classes, family="mixed", levels=None, dims=(2, 3), competi
     level = draw(st.sampled_from(levels if levels is not None else DRAW_LEVELS))
     case = {"spec": spec, "d": d, "src": src, "own": own, "member": member, "level": level}
     case["noise"] = draw(s_noise(n, d)) if level > 0 else None
+    if ints:
+        case["src_int"] = draw(st.sampled_from([False, False, True]))
+        case["tgt_int"] = ints == "both" and draw(st.sampled_from([False, False, True]))
     if competitors:
         p = n_params(spec, d)
         case["comps"] = draw(
@@ -210,15 +241,68 @@ def s_homog_fit(draw, classes, family="mixed", levels=None, dims=(2, 3), competi
     return case
 
 
+INT_UNITS = 64.0  # an integer-valued source spans about this many units (so that rounding keeps general position)
+
+
+def int_source(src, extent):
+    """Integer-valued version of a generated source: the extent is mapped onto INT_UNITS units and rounded.
+    None when rounding destroyed general position / distinctness (the caller then keeps the float source)."""
+    r = np.round(src * (INT_UNITS / extent))
+    if len({tuple(p) for p in r.tolist()}) < len(r) or not gen.non_collinear(r, 0.04):
+        return None
+    return r
+
+
+def int_target(tgt):
+    """Rounded target, unless rounding would make it degenerate (a small target collapsing onto a few pixels): the
+    float target is kept then (and, not being integer valued, is stored as float64)."""
+    r = np.round(tgt)
+    if len({tuple(p) for p in r.tolist()}) < len(r) or not gen.non_collinear(r, 0.02):
+        return tgt
+    return r
+
+
+def is_int_valued(x):
+    return bool(np.all(x == np.round(x)))
+
+
 def build_pair(case):
-    """(src array, tgt array, generating h-matrix) - deterministic in the case."""
+    """(src array, tgt array, generating h-matrix) - deterministic in the case.  The arrays are float64 always;
+    case['src_int'] / case['tgt_int'] say that the values are integers and are to be handed to menpo as int64
+    (see pcs)."""
     d = case["d"]
     src = build_source(case["src"])
+    if case.get("src_int"):
+        r = int_source(src, EXTENT)
+        if r is None:
+            case = dict(case, src_int=False)
+        else:
+            src = r
     h = build_member(case["member"], d)
     tgt = src.dot(h[:d, :d].T) + h[:d, d]
     if case["level"] > 0:
         tgt = tgt + case["level"] * EXTENT * gen.arr(case["noise"])
+    if case.get("tgt_int"):
+        tgt = int_target(tgt)
     return src, tgt, h
+
+
+def make_pc(points, as_int=False):
+    """A fresh PointCloud; int64 storage when asked for (the values are integers then)."""
+    return PointCloud(np.array(points).astype(np.int64) if as_int else np.array(points, dtype=float))
+
+
+def is_int_src(case, src):
+    return bool(case.get("src_int")) and is_int_valued(src)
+
+
+def pcs(case, src, tgt):
+    """(source PointCloud, target PointCloud) with the storage dtypes the case asks for."""
+    return make_pc(src, is_int_src(case, src)), make_pc(tgt, bool(case.get("tgt_int")) and is_int_valued(tgt))
+
+
+def dtype_event(ctx, src_pc, tgt_pc):
+    ctx.event("dtypes src=%s tgt=%s" % (np.asarray(src_pc.points).dtype, np.asarray(tgt_pc.points).dtype))
 
 
 def build_alignment(spec, src_pc, tgt_pc):
@@ -270,7 +354,7 @@ def apply_matches_matrix(ctx, a, h, src, sc, cls):
 
 
 def s_recover():
-    return s_homog_fit(HOMOG, family="own", levels=[0.0])
+    return s_homog_fit(HOMOG, family="own", levels=[0.0], ints="src")
 
 
 def c_recover(case, ctx):
@@ -282,7 +366,9 @@ def c_recover(case, ctx):
     if case["member"].get("rot", {}).get("reflect"):
         ctx.event("member is a reflection")
     ctx.nontrivial(float(np.abs(h_gen - np.eye(d + 1)).max()) > 0.01)
-    a = build_alignment(spec, PointCloud(src), PointCloud(tgt))
+    src_pc, tgt_pc = pcs(case, src, tgt)
+    dtype_event(ctx, src_pc, tgt_pc)
+    a = build_alignment(spec, src_pc, tgt_pc)
     h = a.h_matrix
     if not well_formed_h(ctx, h, d, cls):
         return
@@ -385,7 +471,9 @@ def c_optimal(case, ctx):
     e_ref = sse_h(h_ref, src, tgt)
     ctx.nontrivial(e_ref > 1e-6 * sc * sc)
 
-    a = build_alignment(spec, PointCloud(src), PointCloud(tgt))
+    src_pc, tgt_pc = pcs(case, src, tgt)
+    dtype_event(ctx, src_pc, tgt_pc)
+    a = build_alignment(spec, src_pc, tgt_pc)
     h = np.array(a.h_matrix, dtype=float)
     if not well_formed_h(ctx, h, d, cls):
         return
@@ -443,6 +531,25 @@ def c_optimal(case, ctx):
     else:
         ctx.event("optimum not unique by margin: matrix comparison skipped")
 
+    # ---- the public fit kernel called directly (documented defaults: allow_mirror=False)
+    if cls == "AlignmentRotation":
+        k_src, k_tgt = pcs(case, src, tgt)
+        r_k = optimal_rotation_matrix(k_src, k_tgt, allow_mirror=True) if mirror else optimal_rotation_matrix(k_src, k_tgt)
+        ok = isinstance(r_k, np.ndarray) and r_k.shape == (d, d) and bool(np.all(np.isfinite(r_k)))
+        if ctx.expect(ok, "kernel.optimal_rotation_matrix.shape_or_nonfinite", lambda: repr(r_k)):
+            ctx.expect(close(r_k.T.dot(r_k), np.eye(d), atol=1e-9, rtol=0), "kernel.optimal_rotation_matrix.not_orthogonal",
+                       lambda: repr(r_k))
+            if not mirror:
+                ctx.expect(float(np.linalg.det(r_k)) > 0, "kernel.optimal_rotation_matrix.reflection_by_default",
+                           lambda: "called without allow_mirror: det=%r\n%r" % (float(np.linalg.det(r_k)), r_k))
+            e_k = sse_h(R.hm(r_k, np.zeros(d)), src, tgt)
+            ctx.expect(abs(e_k - e_ref) <= tol2, "kernel.optimal_rotation_matrix.not_least_squares.mirror=%s" % mirror,
+                       lambda: "sse %.12g, reference optimum %.12g\n%r" % (e_k, e_ref, r_k))
+            if gap > 1e-3:
+                ctx.expect(close(r_k, h_ref[:d, :d], rtol=mtol, scale=1.0),
+                           "kernel.optimal_rotation_matrix.differs_from_reference.mirror=%s" % mirror,
+                           lambda: describe(r_k, h_ref[:d, :d]))
+
     # ---- (b) competitor search around the fit
     p = _n_params_optimal(spec, d)
     lin_scale = max(1e-3, float(np.abs(h[:d, :d]).max()))
@@ -483,7 +590,9 @@ def c_scale_similarity(case, ctx):
     ctx.event("d=%d" % d)
     ctx.event("noise=%g" % case["level"])
     ctx.event("family=%s" % ("own" if case["own"] else "foreign:" + case["member"]["kind"]))
-    a = build_alignment(spec, PointCloud(src), PointCloud(tgt))
+    src_pc, tgt_pc = pcs(case, src, tgt)
+    dtype_event(ctx, src_pc, tgt_pc)
+    a = build_alignment(spec, src_pc, tgt_pc)
     h = np.array(a.h_matrix, dtype=float)
     if not well_formed_h(ctx, h, d, cls):
         return
@@ -559,6 +668,25 @@ def c_scale_similarity(case, ctx):
         )
     else:
         ctx.event("optimum not unique by margin: matrix comparison skipped")
+    # the public fit kernel called directly (documented defaults: rotation=True, allow_mirror=False)
+    k_src, k_tgt = pcs(case, src, tgt)
+    kw = {}
+    if not rotation:
+        kw["rotation"] = False
+    if mirror:
+        kw["allow_mirror"] = True
+    p_k = procrustes_alignment(k_src, k_tgt, **kw)
+    ctx.expect(isinstance(p_k, mt.Similarity) and not isinstance(p_k, mt.AlignmentSimilarity),
+               "kernel.procrustes_alignment.not_a_plain_similarity", lambda: type(p_k).__name__)
+    h_k = np.array(p_k.h_matrix, dtype=float)
+    if well_formed_h(ctx, h_k, d, "procrustes_alignment"):
+        e_k = sse_h(h_k, src, tgt)
+        ctx.expect(abs(e_k - e_ref) <= tol2, "kernel.procrustes_alignment.not_reference_similarity." + tag(spec),
+                   lambda: "called with %r: sse %.12g, reference %.12g\n%r" % (kw, e_k, e_ref, h_k))
+        if gap > 1e-3:
+            ctx.expect(close(h_k, h_ref, rtol=1e-9 / gap, scale=max(1.0, float(np.abs(h_ref).max()))),
+                       "kernel.procrustes_alignment.differs_from_reference." + tag(spec),
+                       lambda: "called with %r\n%s" % (kw, describe(h_k, h_ref)))
     if rotation:
         # competitor rotations with centroid and size kept: none may do better
         cs = R.centroid(src)
@@ -595,21 +723,105 @@ WARP_KINDS = [
 
 
 @st.composite
-def s_warp(draw, kinds, extents=(EXTENT,), n_min=3, n_max=20):
+def s_warp(draw, kinds, extents=(EXTENT,), n_min=3, n_max=20, levels=None, ints=True):
     kind = draw(st.sampled_from(kinds))
     extent = draw(st.sampled_from(list(extents)))
     pts = draw(gen.points_case(n_min, n_max, 2, extent).filter(lambda p: gen.non_collinear(p, 0.05)))
     n = len(pts)
     shift = draw(st.one_of(st.just([0.0, 0.0]), gen.vec(2, -2, 2).map(lambda v: [x * extent for x in v])))
     member = draw(st.one_of(s_member("affine", 2), s_member("similarity", 2, "maybe"), s_member("translation", 2)))
-    level = draw(st.sampled_from(DRAW_LEVELS))
+    level = draw(st.sampled_from(levels if levels is not None else DRAW_LEVELS))
     case = {"kind": kind, "extent": extent, "src": {"pts": pts, "shift": shift}, "member": member, "level": level}
     case["noise"] = draw(s_noise(n, 2)) if level > 0 else None
+    if ints:
+        # landmarks handed over as int64 pixel positions (legal input for every alignment)
+        case["src_int"] = draw(st.sampled_from([False, False, False, True]))
+        case["tgt_int"] = draw(st.sampled_from([False, False, False, True]))
+    if not kind.startswith("TPS"):
+        # the target may itself be a TriMesh with a triangulation of its own: the source's triangulation decides
+        case["tgt_trimesh"] = draw(st.sampled_from([False, False, True]))
     if kind.endswith(":trimesh"):
-        # vertex-role rotation / orientation flip per triangle and a rotation of the triangle order
+        # the source's OWN triangulation: Qhull's Delaunay triangles with drawn diagonals flipped (another valid
+        # triangulation of the same hull: a transform that re-triangulates gives different values inside the
+        # flipped quads), optionally one triangle removed (a mesh with a notch or a hole; every landmark stays a
+        # vertex), then a vertex-role
+        # rotation / orientation flip per triangle and a rotation of the triangle order
+        case["flips"] = draw(st.lists(st.integers(0, 63), min_size=0, max_size=4))
+        case["drop"] = draw(st.one_of(st.none(), st.none(), st.integers(0, 63)))
         case["tri_perm"] = draw(st.lists(st.integers(0, 5), min_size=1, max_size=8))
         case["tri_roll"] = draw(st.integers(0, 7))
     return case
+
+
+def _area2(a, b, c):
+    return float((b[0] - a[0]) * (c[1] - a[1]) - (b[1] - a[1]) * (c[0] - a[0]))
+
+
+def flip_diagonals(src, tl, flips):
+    """Flip the shared diagonal of strictly convex quads (each entry of `flips` picks one shared edge of the current
+    list).  The result triangulates the same region with the same vertices."""
+    tl = [[int(v) for v in tri] for tri in tl]
+    done = 0
+    for f in flips:
+        shared = R.shared_edges(tl)
+        if not shared:
+            break
+        for off in range(len(shared)):  # the picked edge, or the next one whose quad is convex enough
+            i, j, ka, kb = shared[(f + off) % len(shared)]
+            a = [v for v in tl[ka] if v not in (i, j)][0]
+            b = [v for v in tl[kb] if v not in (i, j)][0]
+            # the new diagonal a-b must cross the old one i-j well inside: i and j strictly on opposite sides of
+            # a-b, neither new triangle a sliver compared with the quad
+            si, sj = _area2(src[a], src[b], src[i]), _area2(src[a], src[b], src[j])
+            if si * sj >= 0 or min(abs(si), abs(sj)) < 0.1 * (abs(si) + abs(sj)):
+                continue
+            tl[ka] = [a, b, i]
+            tl[kb] = [b, a, j]
+            done += 1
+            break
+    return np.array(tl, dtype=int), done
+
+
+def explicit_trilist(case, src):
+    """The explicit source triangulation of a ':trimesh' case: (trilist, n flipped diagonals, triangle dropped?)."""
+    tl, n_flipped = flip_diagonals(src, R.delaunay_trilist(src), case.get("flips") or [])
+    dropped = False
+    if case.get("drop") is not None and len(tl) > 1:
+        # only when every landmark stays a vertex of the mesh (apply(source) is undefined otherwise)
+        rest = np.delete(tl, case["drop"] % len(tl), axis=0)
+        if len(set(rest.ravel().tolist())) == len(src):
+            tl = rest
+            dropped = True
+    perm = case["tri_perm"]
+    tl = np.array([[tri[j] for j in PERMS3[perm[k % len(perm)]]] for k, tri in enumerate(tl)], dtype=int)
+    tl = np.roll(tl, case["tri_roll"] % len(tl), axis=0)
+    return tl, n_flipped, dropped
+
+
+def warp_arrays(case):
+    """(src, tgt) float arrays of a warp case (integer valued where the case asks for int64 landmarks)."""
+    src = build_source(case["src"])
+    if case.get("src_int"):
+        r = int_source(src, case["extent"] * 2.0)  # about 32 units across
+        if r is not None:
+            src = r
+    h = build_member(case["member"], 2)
+    tgt = src.dot(h[:2, :2].T) + h[:2, 2]
+    if case["level"] > 0:
+        tgt = tgt + case["level"] * case["extent"] * gen.arr(case["noise"])
+    if case.get("tgt_int"):
+        tgt = int_target(tgt)
+    return src, tgt, h
+
+
+def warp_target(case, src, tgt):
+    """The target object of a warp case: PointCloud (float64 / int64) or a TriMesh with a triangulation of its own."""
+    as_int = bool(case.get("tgt_int")) and is_int_valued(tgt)
+    pts = np.array(tgt).astype(np.int64) if as_int else np.array(tgt, dtype=float)
+    if case.get("tgt_trimesh"):
+        own = R.delaunay_trilist(src)[::-1, ::-1].copy()
+        return TriMesh(pts, trilist=own)
+    return PointCloud(pts)
 
 
 PERMS3 = [(0, 1, 2), (1, 2, 0), (2, 0, 1), (0, 2, 1), (2, 1, 0), (1, 0, 2)]
@@ -617,21 +829,13 @@ PERMS3 = [(0, 1, 2), (1, 2, 0), (2, 0, 1), (0, 2, 1), (2, 1, 0), (1, 0, 2)]
 
 def prep_warp(case):
     """(src array, tgt array, explicit trilist or None, source object, target object, constructor thunk)."""
-    src = build_source(case["src"])
-    h = build_member(case["member"], 2)
-    tgt = src.dot(h[:2, :2].T) + h[:2, 2]
-    if case["level"] > 0:
-        tgt = tgt + case["level"] * case["extent"] * gen.arr(case["noise"])
+    src, tgt, _ = warp_arrays(case)
     base, _, opt = case["kind"].partition(":")
-    if case.get("tgt_int"):
-        # target landmarks given as integer pixel positions (a legal input): rounded, stored as int64
-        tgt = np.round(tgt)
-        tgt_pc = PointCloud(tgt.astype(np.int64))
-    else:
-        tgt_pc = PointCloud(tgt)
+    tgt_pc = warp_target(case, src, tgt)
+    src_pts = src.astype(np.int64) if is_int_src(case, src) else src
     trilist = None
     if base == "TPS":
-        src_pc = PointCloud(src)
+        src_pc = PointCloud(src_pts)
 
         def ctor():
             kernel = None if opt == "default" else getattr(mrbf, opt)(src_pc.points)
@@ -639,14 +843,11 @@ def prep_warp(case):
 
         return src, tgt, None, src_pc, tgt_pc, ctor
     if opt == "trimesh":
-        tl = R.delaunay_trilist(src)
-        perm = case["tri_perm"]
-        tl = np.array([[tri[j] for j in PERMS3[perm[k % len(perm)]]] for k, tri in enumerate(tl)], dtype=int)
-        tl = np.roll(tl, case["tri_roll"] % len(tl), axis=0)
+        tl, _, _ = explicit_trilist(case, src)
         trilist = tl
-        src_pc = TriMesh(src, trilist=tl.copy())
+        src_pc = TriMesh(src_pts, trilist=tl.copy())
     else:
-        src_pc = PointCloud(src)
+        src_pc = PointCloud(src_pts)
     cls = {"PiecewiseAffine": mt.PiecewiseAffine, "CachedPWA": CachedPWA, "PythonPWA": PythonPWA}[base]
     return src, tgt, trilist, src_pc, tgt_pc, (lambda: cls(src_pc, tgt_pc))
 
@@ -666,11 +867,59 @@ def tps_kernel_name(kind):
 # 4. interpolation
 
 
+def s_probes():
+    """Off-landmark probe positions: [triangle pick, u, v] (PWA: inside that source triangle; TPS: u, v place the
+    probe in the landmarks' bounding box enlarged by a quarter on every side)."""
+    return st.lists(st.tuples(st.integers(0, 63), gen.q(0.01, 0.99), gen.q(0.01, 0.99)).map(list), min_size=1, max_size=6)
+
+
 def s_interpolate():
+    @st.composite
+    def exact(draw):
+        # noise-free image of the source under an affine map: a member of the TPS / PWA family itself
+        tps = draw(st.booleans())
+        case = draw(s_warp(WARP_KINDS[:3], extents=(0.5, 1.0, 2.0, 10.0), levels=[0.0]) if tps
+                    else s_warp(WARP_KINDS[3:], levels=[0.0]))
+        case["tgt_int"] = False
+        case["probes"] = draw(s_probes())
+        return case
+
     return st.one_of(
         s_warp(WARP_KINDS[:3], extents=(0.5, 1.0, 1.0, 2.0)),
         s_warp(WARP_KINDS[:3], extents=(0.5, 1.0, 1.0, 2.0, 10.0, 100.0)),
         s_warp(WARP_KINDS[3:]),
+        exact(),
+    )
+
+
+def warp_events(ctx, case, src, trilist, src_pc, tgt_pc):
+    ctx.event("dtypes src=%s tgt=%s" % (np.asarray(src_pc.points).dtype, np.asarray(tgt_pc.points).dtype))
+    if not case["kind"].startswith("TPS"):
+        ctx.event("target is a %s" % type(tgt_pc).__name__)
+    if trilist is not None:
+        _, n_flipped, dropped = explicit_trilist(case, src)
+        ctx.event("explicit trilist: %s diagonals flipped%s" % ("no" if n_flipped == 0 else "some", ", a triangle removed" if dropped else ""))
+
+
+def check_affine_off_landmarks(ctx, case, a, src, tgt, tl, sc, tol, base):
+    """Gap: 'recovers a member of its own family' for the warps - the target is an exact affine image of the source,
+    so the fitted warp must be that affine map everywhere it is defined, not only on the landmarks."""
+    h = build_member(case["member"], 2)
+    qs = []
+    lo, hi = src.min(axis=0), src.max(axis=0)
+    for k, u, v in case["probes"]:
+        if tl is None:
+            qs.append(lo + (hi - lo) * np.array([-0.25 + 1.5 * u, -0.25 + 1.5 * v]))
+        else:
+            qs.append(inside_point(src, tl[k % len(tl)], u, v))
+    qs = np.array(qs)
+    want = R.apply_h(h, qs)
+    got = a.apply(qs)
+    ctx.event("affine target probed off the landmarks")
+    ctx.expect(
+        close(got, want, rtol=tol, scale=sc),
+        "recover.affine_not_reproduced_off_landmarks." + base,
+        lambda: "target = affine(source) exactly; probes %r\n%s" % (qs, describe(got, want)),
     )
 
 
@@ -681,6 +930,8 @@ def c_interpolate(case, ctx):
     ctx.event("kind=%s" % kind)
     ctx.event("noise=%g" % case["level"])
     ctx.event("n=%s" % ("3" if len(src) == 3 else "4-9" if len(src) < 10 else "10-20"))
+    warp_events(ctx, case, src, trilist, src_pc, tgt_pc)
+    exact_affine = case["level"] == 0 and bool(case.get("probes")) and maxdiff(tgt, R.apply_h(build_member(case["member"], 2), src)) == 0
     differs = maxdiff(src, tgt) > 1e-3 * sc
     if kind.startswith("TPS"):
         smin, smax = R.tps_min_singular(src, tps_kernel_name(kind))
@@ -704,14 +955,20 @@ def c_interpolate(case, ctx):
             )
         got_pc = a.apply(src_pc)
         ctx.expect(close(got_pc.points, got, rtol=1e-12, scale=sc), "interpolate.tps.pointcloud_vs_array", "")
+        if exact_affine and strict:
+            check_affine_off_landmarks(ctx, case, a, src, tgt, None, sc, 1e-9, "tps")
         return
     ctx.nontrivial(differs)
     tl = np.asarray(a.trilist)
+    if trilist is not None:
+        ctx.expect(np.array_equal(tl, trilist), "interpolate.pwa.explicit_trilist_not_used", lambda: "%r vs %r" % (tl, trilist))
+        tl = trilist  # the reference works from the triangulation that was handed over
     quality = R.tri_min_quality(src, tl)
     ctx.event("pwa sliver quality %s" % ("<1e-3" if quality < 1e-3 else ">=1e-3"))
     tol = 1e-12 / max(quality, 1e-9) + 1e-10
+    used = sorted({int(v) for tri in tl for v in tri})  # a removed triangle may leave a landmark outside the mesh
     try:
-        got = a.apply(src)
+        got = a.apply(src[used])
     except TriangleContainmentError as e:
         ctx.fail(
             "interpolate.pwa.landmark_not_in_any_triangle",
@@ -719,12 +976,13 @@ def c_interpolate(case, ctx):
         )
         return
     ctx.expect(
-        close(got, tgt, rtol=tol, scale=sc),
+        close(got, tgt[used], rtol=tol, scale=sc),
         "interpolate.pwa.landmarks_not_hit." + kind.split(":")[0],
-        lambda: "tol %.2e\n%s" % (tol * sc, describe(got, tgt)),
+        lambda: "tol %.2e\n%s" % (tol * sc, describe(got, tgt[used])),
     )
-    if trilist is not None:
-        ctx.expect(np.array_equal(tl, trilist), "interpolate.pwa.explicit_trilist_not_used", lambda: "%r vs %r" % (tl, trilist))
+    if exact_affine:
+        check_affine_off_landmarks(ctx, case, a, src, tgt, [[int(v) for v in t] for t in tl], sc,
+                                   1e-11 / max(quality, 1e-9) + 1e-10, kind.split(":")[0])
 
 
 # ==============================================================================================
@@ -764,9 +1022,11 @@ def c_pwa_affine(case, ctx):
     kind = case["kind"]
     a, src, tgt, trilist, src_pc, tgt_pc = build_warp(case)
     sc = coord_scale(src, tgt)
-    tl = [[int(v) for v in tri] for tri in np.asarray(a.trilist)]
+    # the reference works from the triangulation that was handed over (the transform's own otherwise)
+    tl = [[int(v) for v in tri] for tri in (trilist if trilist is not None else np.asarray(a.trilist))]
     ctx.event("kind=%s" % kind)
     ctx.event("noise=%g" % case["level"])
+    warp_events(ctx, case, src, trilist, src_pc, tgt_pc)
     ctx.event("triangles=%s" % ("1" if len(tl) == 1 else "2-5" if len(tl) <= 5 else ">5"))
     ctx.nontrivial(maxdiff(src, tgt) > 1e-3 * sc)
     quality = R.tri_min_quality(src, tl)
@@ -941,7 +1201,8 @@ def c_bookkeeping(case, ctx):
     if "spec" in case:
         spec, d = case["spec"], case["d"]
         src, tgt, _ = build_pair(case)
-        src_obj, tgt_obj = PointCloud(src), PointCloud(tgt)
+        src_obj, tgt_obj = pcs(case, src, tgt)
+        dtype_event(ctx, src_obj, tgt_obj)
         name = spec["cls"]
         ctx.event("class=%s" % tag(spec))
         ctx.event("d=%d" % d)
@@ -993,6 +1254,7 @@ def s_gpa():
             m = draw(s_member("similarity", d, "maybe" if draw(st.booleans()) else "no"))
             shapes.append({"member": m, "noise": draw(s_noise(n, d))})
         case = {"d": d, "base": base, "shapes": shapes, "level": level, "allow_mirror": allow_mirror}
+        case["ints"] = draw(st.sampled_from([False, False, True]))  # all shapes as int64 pixel positions
         case["fixed_target"] = draw(st.one_of(st.none(), st.integers(0, k - 1), st.just("new")))
         if case["fixed_target"] == "new":
             case["target_member"] = draw(s_member("similarity", d, "no"))
@@ -1011,13 +1273,19 @@ def c_gpa(case, ctx):
     d = case["d"]
     base = build_source(case["base"])
     arrays = [_gpa_shape(base, s["member"], s["noise"], case["level"], d) for s in case["shapes"]]
-    sources = [PointCloud(x) for x in arrays]
+    ints = bool(case.get("ints"))
+    if ints:
+        # integer pixel positions: the shapes are blown up 8 x before rounding so that they stay in general position
+        arrays = [np.round(8.0 * x) for x in arrays]
+    sources = [make_pc(x, ints) for x in arrays]
     ft = case["fixed_target"]
     target_obj = None
     if ft == "new":
-        target_obj = PointCloud(_gpa_shape(base, case["target_member"], case["target_noise"], case["level"], d))
+        t_arr = _gpa_shape(base, case["target_member"], case["target_noise"], case["level"], d)
+        target_obj = make_pc(np.round(8.0 * t_arr), True) if ints else PointCloud(t_arr)
     elif ft is not None:
-        target_obj = PointCloud(arrays[ft].copy())
+        target_obj = make_pc(arrays[ft].copy(), ints)
+    ctx.event("shapes stored as %s" % ("int64" if ints else "float64"))
     mirror = case["allow_mirror"]
     n_refl = sum(1 for s in case["shapes"] if s["member"]["rot"]["reflect"])
     ctx.event("d=%d" % d)
@@ -1072,6 +1340,15 @@ def c_gpa(case, ctx):
                     lambda: "i=%d\n%s" % (i, describe(t.h_matrix, h_ref)),
                 )
     ctx.nontrivial(nt)
+    # the summary: mean over the transforms of |transform's target - transform(source)|_F
+    want_mean = sum(math.sqrt(R.sse(np.asarray(t.target.points), R.apply_h(np.array(t.h_matrix), arrays[i])))
+                    for i, t in enumerate(ts)) / len(ts)
+    got_mean = g.mean_alignment_error()
+    ctx.expect(
+        isinstance(got_mean, (float, np.floating)) and abs(float(got_mean) - want_mean) <= 1e-9 * max(1.0, want_mean) + 1e-10 * sc,
+        "gpa.mean_alignment_error_is_not_the_mean_of_the_errors",
+        lambda: "mean_alignment_error() = %r, mean of the %d Frobenius distances = %r" % (got_mean, len(ts), want_mean),
+    )
     if ft is not None:
         ctx.expect(g.target is target_obj, "gpa.fixed_target_not_kept", "")
         dd = digest.parameter_mutation(dig_tgt, digest.digest(target_obj))
@@ -1079,6 +1356,335 @@ def c_gpa(case, ctx):
     for i, s in enumerate(sources):
         dd = digest.parameter_mutation(dig_src[i], digest.digest(s))
         ctx.expect(dd is None, "gpa.source_mutated", lambda: "i=%d %r" % (i, dd))
+
+
+# ==============================================================================================
+# 8. the same promises on a re-used object: copies, pseudoinverses, in-place compositions, edited targets, set_target
+
+FAMILY_KIND = {
+    "AlignmentTranslation": "translation",
+    "AlignmentUniformScale": "scale",
+    "AlignmentRotation": "rotation",
+    "AlignmentSimilarity": "similarity",
+    "AlignmentAffine": "affine",
+}
+
+
+@st.composite
+def s_set_target(draw, spec, d, n, hows=("new", "equal", "exact", "same")):
+    """A set_target step.  same: the PointCloud object the alignment already holds; equal: a fresh PointCloud with
+    the same coordinates; new: member(current source) + noise (own or foreign family); exact: a noise-free image of the
+    current source under a member of the class's own family."""
+    how = draw(st.sampled_from(list(hows)))
+    t = {"op": "set_target", "how": how}
+    if how == "new":
+        t["member"] = draw(st.one_of(own_member(spec, d), foreign_member(spec, d)))
+        t["level"] = draw(st.sampled_from(DRAW_LEVELS))
+        t["noise"] = draw(s_noise(n, d))
+        t["int"] = draw(st.sampled_from([False, False, True]))
+    elif how == "exact":
+        t["member"] = draw(own_member(spec, d))
+    return t
+
+
+def s_step(spec, d, n):
+    compose = st.builds(
+        lambda side, m: {"op": "compose", "side": side, "member": m},
+        st.sampled_from(["after", "before"]),
+        s_member(FAMILY_KIND[spec["cls"]], d, "no"),
+    )
+    edit = st.builds(lambda k, v: {"op": "edit_target", "row": k, "delta": v}, st.integers(0, n - 1), gen.vec(d, -3, 3))
+    return st.one_of(st.just({"op": "copy"}), st.just({"op": "pinv"}), st.just({"op": "pinv"}), compose, compose, edit,
+                     s_set_target(spec, d, n))
+
+
+def s_retarget():
+    @st.composite
+    def homog(draw):
+        # class first (each of the five equally often), then its options
+        case = draw(s_homog_fit([draw(st.sampled_from(HOMOG))]))
+        spec, d, n = case["spec"], case["d"], len(case["src"]["pts"])
+        steps = draw(st.lists(s_step(spec, d, n), min_size=0, max_size=3))
+        steps.append(draw(s_set_target(spec, d, n)))
+        case["steps"] = steps
+        return case
+
+    @st.composite
+    def warp(draw):
+        case = draw(s_warp(WARP_KINDS, extents=(1.0, EXTENT)))
+        n = len(case["src"]["pts"])
+        case["pre"] = draw(st.lists(st.one_of(
+            st.just({"op": "copy"}),
+            st.builds(lambda k, v: {"op": "edit_target", "row": k, "delta": v}, st.integers(0, n - 1), gen.vec(2, -1, 1)),
+        ), min_size=0, max_size=2))
+        how = draw(st.sampled_from(["new", "equal", "same", "new"]))
+        t = {"op": "set_target", "how": how}
+        if how == "new":
+            t["member"] = draw(st.one_of(s_member("affine", 2), s_member("similarity", 2, "no"), s_member("translation", 2)))
+            t["level"] = draw(st.sampled_from(DRAW_LEVELS))
+            t["noise"] = draw(s_noise(n, 2))
+            t["int"] = draw(st.sampled_from([False, False, True]))
+        case["retarget"] = t
+        case["picks"] = draw(st.lists(st.tuples(st.integers(0, 63), gen.q(0.01, 0.99), gen.q(0.01, 0.99)).map(list),
+                                      min_size=1, max_size=4))
+        return case
+
+    return st.one_of(homog(), homog(), homog(), warp())
+
+
+def build_transform(member, d):
+    """A plain (non-alignment) menpo transform for a family member."""
+    kind = member["kind"]
+    h = build_member(member, d)
+    if kind == "translation":
+        return mt.Translation(h[:d, d].copy())
+    if kind == "scale":
+        return mt.UniformScale(float(member["s"]), d)
+    if kind == "rotation":
+        return mt.Rotation(h[:d, :d].copy())
+    if kind in ("similarity", "similarity_norot"):
+        return mt.Similarity(h)
+    return mt.Affine(h)
+
+
+def ref_fit(spec, src, tgt):
+    """(reference h-matrix of the class's fit of src onto tgt as the property describes it, uniqueness gap)."""
+    cls = spec["cls"]
+    d = src.shape[1]
+    if cls == "AlignmentTranslation":
+        return R.hm(np.eye(d), R.best_translation(src, tgt)), 1.0
+    if cls == "AlignmentUniformScale":
+        return R.hm(np.eye(d) * (R.cnorm(tgt) / R.cnorm(src)), np.zeros(d)), 1.0
+    if cls == "AlignmentRotation":
+        r, _, info = R.best_orthogonal(src, tgt, spec["allow_mirror"])
+        return R.hm(r, np.zeros(d)), info["gap"]
+    if cls == "AlignmentSimilarity":
+        h, _, _, info = R.ref_similarity(src, tgt, spec["rotation"], spec["allow_mirror"])
+        return h, (info["gap"] if spec["rotation"] else 1.0)
+    return R.lstsq_affine(src, tgt), 1.0
+
+
+def check_fit(ctx, a, spec, src, tgt, prefix, note, h_member=None):
+    """`a` is to be the class's fit of src onto tgt (recovery / optimality / size / centroid as in clauses 1-3), whatever
+    was done to the object before."""
+    cls = spec["cls"]
+    d, n = src.shape[1], src.shape[0]
+    sc = coord_scale(src, tgt)
+    tol2 = 1e-9 * n * sc * sc
+    h = np.array(a.h_matrix, dtype=float)
+    if not well_formed_h(ctx, h, d, cls):
+        return
+    fitted = apply_matches_matrix(ctx, a, h, src, sc, cls)
+    if not gen.non_collinear(src, 0.01):
+        ctx.event("current source degenerate: fit oracle skipped")
+        return
+    h_ref, gap = ref_fit(spec, src, tgt)
+    e_ref, e_fit = sse_h(h_ref, src, tgt), R.sse(fitted, tgt)
+    ctx.expect(
+        abs(e_fit - e_ref) <= tol2,
+        prefix + ".residual_differs_from_family_fit." + tag(spec),
+        lambda: "%s\nsse %.12g, reference fit of the current source onto the current target %.12g\nfit=\n%r\nreference=\n%r"
+        % (note, e_fit, e_ref, h, h_ref),
+    )
+    if cls in ("AlignmentUniformScale", "AlignmentSimilarity"):
+        size_t, size_a = R.cnorm(tgt), R.cnorm(fitted)
+        ctx.expect(
+            abs(size_a - size_t) <= 1e-9 * max(1.0, size_t),
+            prefix + ".size_not_reproduced." + cls,
+            lambda: "%s\nsize of aligned source %.12g, of target %.12g (source %.12g)" % (note, size_a, size_t, R.cnorm(src)),
+        )
+    if cls == "AlignmentSimilarity":
+        ct, ca = R.centroid(tgt), R.centroid(fitted)
+        ctx.expect(close(ca, ct, rtol=1e-9, scale=sc), prefix + ".centroid_not_reproduced",
+                   lambda: "%s\naligned centroid %r, target centroid %r" % (note, ca, ct))
+    if cls in ("AlignmentRotation", "AlignmentSimilarity") and not (spec["allow_mirror"] and spec.get("rotation", True)):
+        det = float(np.linalg.det(h[:d, :d]))
+        ctx.expect(det > 0, prefix + ".reflection_without_allow_mirror." + cls, lambda: "%s\ndet=%r" % (note, det))
+    if cls == "AlignmentAffine":
+        mtol = 1e-11 * R.design_cond(src) ** 2 + 1e-9
+    elif cls in ("AlignmentRotation", "AlignmentSimilarity"):
+        mtol = 1e-9 / max(gap, 1e-12)
+    else:
+        mtol = 1e-10
+    if gap > 1e-3:
+        hs = max(1.0, float(np.abs(h_ref).max()))
+        ctx.expect(
+            close(h, h_ref, rtol=mtol, scale=hs),
+            prefix + ".h_matrix_differs_from_family_fit." + tag(spec),
+            lambda: "%s\n%s" % (note, describe(h, h_ref)),
+        )
+        if h_member is not None:
+            ctx.expect(
+                close(h, h_member, rtol=mtol, scale=max(1.0, float(np.abs(h_member).max()))),
+                prefix + ".member_not_recovered." + tag(spec),
+                lambda: "%s\ntarget = member(source) exactly\n%s" % (note, describe(h, h_member)),
+            )
+    else:
+        ctx.event("optimum not unique by margin: matrix comparison skipped")
+
+
+def _edit_target_in_place(a, row, delta):
+    """The caller edits the coordinates of the target it handed over (same array, one landmark moved)."""
+    pts = a.target.points
+    new = np.array(pts[row], dtype=float) + gen.arr(delta)
+    if pts.dtype.kind in "iu":
+        new = np.round(new)
+    pts[row] = new
+    return np.array(pts, dtype=float)
+
+
+def c_retarget(case, ctx):
+    if "kind" in case:
+        return c_retarget_warp(case, ctx)
+    spec, d = case["spec"], case["d"]
+    cls = spec["cls"]
+    src, tgt, _ = build_pair(case)
+    src_obj, tgt_obj = pcs(case, src, tgt)
+    ctx.event("class=%s" % tag(spec))
+    ctx.event("d=%d" % d)
+    a = build_alignment(spec, src_obj, tgt_obj)
+    h0 = np.array(a.h_matrix, dtype=float)
+    cur_src, cur_tgt = src.copy(), tgt.copy()
+    synced = True  # the map is expected to be the family's fit of cur_src onto cur_tgt
+    desync = None
+    history = ["%s(source, target)" % tag(spec)]
+    for step in case["steps"]:
+        op = step["op"]
+        target_known = True
+        h_member = None
+        if op == "copy":
+            a = a.copy()
+            history.append("copy()")
+        elif op == "pinv":
+            # an alignment of the same class from the old target back onto the old source
+            e_fwd = R.sse(R.apply_h(np.array(a.h_matrix, dtype=float), cur_src), cur_tgt)
+            a = a.pseudoinverse()
+            cur_src, cur_tgt = cur_tgt, cur_src
+            sc_now = coord_scale(cur_src, cur_tgt)
+            if cls == "AlignmentAffine" and e_fwd > 1e-18 * len(cur_src) * sc_now * sc_now:
+                # the inverse of a least-squares affine fit is not the least-squares fit of the swapped pair
+                if synced:
+                    desync = "pseudoinverse of a noisy affine fit"
+                synced = False
+            history.append("pseudoinverse()")
+        elif op == "compose":
+            t = build_transform(step["member"], d)
+            if step["side"] == "after":
+                a.compose_after_inplace(t)
+            else:
+                a.compose_before_inplace(t)
+            # (AlignmentAffine re-derives its target from the new state, the others keep theirs: not asserted)
+            cur_tgt = np.array(a.target.points, dtype=float)
+            target_known = False
+            synced = False
+            desync = "compose_%s_inplace" % step["side"]
+            history.append("compose_%s_inplace(%s)" % (step["side"], step["member"]["kind"]))
+        elif op == "edit_target":
+            cur_tgt = _edit_target_in_place(a, step["row"], step["delta"])
+            target_known = False
+            synced = False
+            desync = "target edited in place"
+            history.append("target.points[%d] += delta" % step["row"])
+        else:
+            how = step["how"]
+            if how == "same":
+                new_t = a.target
+            elif how == "equal":
+                new_t = PointCloud(np.array(a.target.points))
+            else:
+                hm2 = build_member(step["member"], d)
+                arr = R.apply_h(hm2, cur_src)
+                if how == "new":
+                    arr = arr + step["level"] * EXTENT * gen.arr(step["noise"])
+                    if step["int"]:
+                        arr = int_target(arr)
+                    new_t = make_pc(arr, step["int"] and is_int_valued(arr))
+                else:
+                    new_t = PointCloud(arr)
+                    h_member = hm2
+            if how in ("same", "equal") and desync is not None and not synced:
+                ctx.event("set_target(%s) after: %s" % (how, desync))
+            a.set_target(new_t)
+            cur_tgt = np.array(new_t.points, dtype=float)
+            synced = True
+            desync = None
+            history.append("set_target(%s)" % how)
+        ctx.event("op=%s" % (op if op != "set_target" else "set_target(%s)" % step["how"]))
+        note = " -> ".join(history)
+        sc = coord_scale(cur_src, cur_tgt)
+        pre = "retarget." + ("pseudoinverse" if op == "pinv" else op)
+        check_bookkeeping(ctx, a, cls, a.source, a.target, cur_src, cur_tgt, sc, exact_target=target_known, prefix=pre)
+        if synced and op in ("copy", "pinv", "set_target"):
+            check_fit(ctx, a, spec, cur_src, cur_tgt, pre, note, h_member=h_member)
+    h1 = np.array(a.h_matrix, dtype=float)
+    ctx.nontrivial(h1.shape == h0.shape and maxdiff(h1, h0) > 1e-6 * max(1.0, float(np.abs(h0).max())))
+
+
+def c_retarget_warp(case, ctx):
+    kind = case["kind"]
+    base = kind.split(":")[0]
+    src, tgt, trilist, src_pc, tgt_pc, ctor = prep_warp(case)
+    name = kind.replace(":", "_")
+    ctx.event("class=%s" % kind)
+    a = ctor()
+    history = [kind]
+    cur_tgt = tgt.copy()
+    for step in case["pre"]:
+        if step["op"] == "copy":
+            a = a.copy()
+            history.append("copy()")
+        else:
+            cur_tgt = _edit_target_in_place(a, step["row"], [v * case["extent"] for v in step["delta"]])
+            history.append("target.points[%d] += delta" % step["row"])
+        ctx.event("op=%s" % step["op"])
+    rt = case["retarget"]
+    how = rt["how"]
+    if how == "same":
+        new_t = a.target
+    elif how == "equal":
+        new_t = PointCloud(np.array(a.target.points))
+    else:
+        arr = R.apply_h(build_member(rt["member"], 2), src) + rt["level"] * case["extent"] * gen.arr(rt["noise"])
+        if rt["int"]:
+            arr = int_target(arr)
+        new_t = make_pc(arr, rt["int"] and is_int_valued(arr))
+    a.set_target(new_t)
+    history.append("set_target(%s)" % how)
+    ctx.event("op=set_target(%s)" % how)
+    note = " -> ".join(history)
+    t2 = np.array(new_t.points, dtype=float)
+    sc = coord_scale(src, tgt, t2)
+    ctx.nontrivial(maxdiff(t2, tgt) > 1e-3 * sc)
+    if base == "TPS":
+        smin, _ = R.tps_min_singular(src, tps_kernel_name(kind))
+        strict = smin >= 100 * a.min_singular_val
+        got = a.apply(src)
+        ctx.expect(
+            close(got, t2, rtol=1e-8 if strict else 1e-4, scale=sc),
+            "retarget.set_target.tps.landmarks_not_hit" + ("" if strict else ".truncation_regime"),
+            lambda: "%s\n%s" % (note, describe(got, t2)),
+        )
+    else:
+        tl = [[int(v) for v in tri] for tri in (trilist if trilist is not None else np.asarray(a.trilist))]
+        quality = R.tri_min_quality(src, tl)
+        tol = 1e-11 / max(quality, 1e-9) + 1e-10
+        got = a.apply(src)
+        ctx.expect(close(got, t2, rtol=tol, scale=sc), "retarget.set_target.pwa.landmarks_not_hit." + base,
+                   lambda: "%s\n%s" % (note, describe(got, t2)))
+        pts, owner = [], []
+        for k, u, v in case["picks"]:
+            k = k % len(tl)
+            p = inside_point(src, tl[k], u, v)
+            if R.locate(src, tl, p) == [k]:
+                pts.append(p)
+                owner.append(k)
+        if pts:
+            pts = np.array(pts)
+            got = a.apply(pts)
+            want = np.array([R.bary_map(src[tl[k]], t2[tl[k]], p) for k, p in zip(owner, pts)])
+            ctx.expect(close(got, want, rtol=tol, scale=sc), "retarget.set_target.pwa.interior_not_barycentric_map." + base,
+                       lambda: "%s\n%s" % (note, describe(got, want)))
+    check_bookkeeping(ctx, a, name, a.source, a.target, src, t2, sc, prefix="retarget.set_target")
 
 
 CLAUSES = [
@@ -1103,4 +1709,12 @@ CLAUSES = [
     Clause("gpa", c_gpa, s_gpa, quick=250, thorough=6000, nt_floor=0.4,
            rule="2-6 noisy similarity images of a base shape (some reflected), 2-D/3-D, target None / one of the sources / "
                 "a new shape, allow_mirror on/off; non-trivial: some transform has non-zero alignment error"),
+    Clause("retarget", c_retarget, s_retarget, quick=700, thorough=16000, nt_floor=0.3,
+           rule="an alignment of any class is built, then re-used: 0-3 drawn steps out of copy() / pseudoinverse() / "
+                "compose_after|before_inplace(member of its family) / in-place edit of the held target / set_target, then "
+                "a final set_target with the held target object, an equal copy, a new target (own or foreign family + "
+                "noise, float or int64) or an exact family image of the current source; after every step bookkeeping, "
+                "after copy / pseudoinverse / set_target the fit oracles of clauses 1-4 for the CURRENT (source, target); "
+                "warps: copy / edit, then set_target; non-trivial: the map after the sequence differs from the map "
+                "after construction (warps: the final target differs from the first)"),
 ]
